@@ -1497,6 +1497,35 @@ func o2(w *World, r *Report) {
 						ok = true
 					}
 				}
+				// a helper that only writes the stake it is handed: the refund height is assigned
+				// by every caller before the call
+				if pr, isParam := stripConv(arg).(*ssa.Parameter); !ok && isParam && fn != root {
+					pi := -1
+					for i, p := range fn.Params {
+						if p == pr {
+							pi = i
+						}
+					}
+					cs := w.nodeCallers(fn)
+					all := pi >= 0 && len(cs) > 0
+					for _, cs1 := range cs {
+						if cs1.Site == nil || pi >= len(cs1.Site.Common().Args) {
+							all = false
+							continue
+						}
+						passed := cs1.Site.Common().Args[pi]
+						found := false
+						for _, fs := range w.fieldStores(cs1.Caller) {
+							if fs.Field.Name() == "RefundHeight" && w.Canon(fs.Addr.(*ssa.FieldAddr).X) == w.Canon(passed) && instrDominates(fs.In, cs1.Site) {
+								found = true
+							}
+						}
+						if !found {
+							all = false
+						}
+					}
+					ok = all
+				}
 				key := refStr(ref) + ":frozen-after-refund-height:" + w.Canon(arg)
 				if fn != root {
 					key = refStr(ref) + ":frozen-after-refund-height:" + w.FName(fn) + ":" + w.Canon(arg)
@@ -1844,6 +1873,41 @@ func j1(w *World, r *Report) {
 		sl := w.findCall(sp, d+".DoSlash(p1)")
 		set := w.findCall(sp, "recv.delegateeLedger.SetFinality("+d+")")
 		r.Check(sl != nil && set != nil && instrDominates(sl, set), "J-1", "StakeCtrler.doPunish:target", "the delegatee slashed and recorded is the one at the evidence's validator address, with the given ratio", "the stake controller slashes or records an object other than the delegatee at the evidence's validator address", fnSite(w, sp))
+		// every evidence entry whose validator is found is slashed: once the lookup
+		// succeeded, every path slashes and records, and none fails (the caller only logs
+		// a failure and goes on, so a refusal is a silently skipped punishment)
+		if sl != nil && set != nil {
+			ev := func(in ssa.Instruction) string {
+				switch in {
+				case ssa.Instruction(sl.(ssa.Instruction)):
+					return "SLASH"
+				case ssa.Instruction(set.(ssa.Instruction)):
+					return "RECORD"
+				}
+				return ""
+			}
+			fe := w.newFactEval(nil, AR(`^recv\.delegateeLedger\.GetFinality\(ledger\.ToLedgerKey\(p0\.Validator\.Address\)\)#1$`, "==", "^nil$"))
+			saved := w.branchMarkers
+			w.branchMarkers = false
+			ps, complete := w.enumPaths(sp, fe.eval, ev, 2000)
+			w.branchMarkers = saved
+			bad, nP := "", 0
+			if !complete || len(fe.used) == 0 {
+				bad = "the paths after a successful lookup cannot be enumerated"
+			}
+			for _, p := range ps {
+				if p.Term == "panic" {
+					continue
+				}
+				nP++
+				if p.Term == "err" {
+					bad = "the punishment is refused although the validator was found"
+				} else if strings.Join(p.Events, ",") != "SLASH,RECORD" {
+					bad = "a path after the lookup runs [" + strings.Join(p.Events, ",") + "]"
+				}
+			}
+			r.Check(bad == "" && nP > 0, "J-1", "StakeCtrler.doPunish:every-found-validator", "once the validator's delegatee is found, every path slashes it with the given ratio and records it", "evidence against a known validator can be skipped: "+bad, fnSite(w, sp))
+		}
 		g, ok := w.guardProtectsSuccess(sp, func(c string) bool {
 			return c == "(recv.delegateeLedger.GetFinality(ledger.ToLedgerKey(p0.Validator.Address))#1 != nil)"
 		})
